@@ -1,0 +1,682 @@
+//! Deterministic baton scheduler and event log.
+//!
+//! Managed threads are real OS threads, but exactly one of them runs at a
+//! time. Every instrumented operation is a *scheduling point*: the running
+//! thread publishes its pending operation, the scheduler picks the next
+//! thread among those whose pending operation is enabled, and the chosen
+//! thread performs its operation atomically and appends one event to the log
+//! while still holding the baton (after the state change, before any other
+//! thread can observe it). Events are ordered by one global sequence number,
+//! never by wall-clock time.
+//!
+//! "No enabled thread while some thread is unfinished" is a deadlock and is
+//! recorded as data; the threads of such a scenario are abandoned (they stay
+//! blocked forever) and the driver moves on.
+
+use ::std::{
+    cell::RefCell,
+    collections::{HashMap, HashSet},
+    fmt::Write as _,
+    sync::{Arc, Condvar, Mutex},
+    time::Duration,
+};
+
+/// Builder for one ndjson event.
+pub struct Ev {
+    buf: String,
+}
+
+impl Ev {
+    pub fn new(name: &str) -> Self {
+        let mut buf = String::with_capacity(96);
+        buf.push_str("\"ev\":\"");
+        buf.push_str(name);
+        buf.push('"');
+        Self { buf }
+    }
+
+    pub fn u(mut self, key: &str, value: u128) -> Self {
+        let _ = write!(self.buf, ",\"{key}\":{value}");
+        self
+    }
+
+    pub fn i(mut self, key: &str, value: i128) -> Self {
+        let _ = write!(self.buf, ",\"{key}\":{value}");
+        self
+    }
+
+    pub fn b(mut self, key: &str, value: bool) -> Self {
+        let _ = write!(self.buf, ",\"{key}\":{value}");
+        self
+    }
+
+    pub fn s(mut self, key: &str, value: &str) -> Self {
+        let _ = write!(self.buf, ",\"{key}\":{}", json_str(value));
+        self
+    }
+
+    /// Inserts pre-rendered JSON.
+    pub fn raw(mut self, key: &str, json: &str) -> Self {
+        let _ = write!(self.buf, ",\"{key}\":{json}");
+        self
+    }
+
+    pub fn us(mut self, key: &str, values: &[u128]) -> Self {
+        let _ = write!(self.buf, ",\"{key}\":[");
+        for (i, v) in values.iter().enumerate() {
+            if i > 0 {
+                self.buf.push(',');
+            }
+            let _ = write!(self.buf, "{v}");
+        }
+        self.buf.push(']');
+        self
+    }
+
+    pub fn body(&self) -> &str {
+        &self.buf
+    }
+}
+
+/// Renders a JSON string literal.
+pub fn json_str(s: &str) -> String {
+    let mut out = String::with_capacity(s.len() + 2);
+    out.push('"');
+    for c in s.chars() {
+        match c {
+            '"' => out.push_str("\\\""),
+            '\\' => out.push_str("\\\\"),
+            '\n' => out.push_str("\\n"),
+            '\r' => out.push_str("\\r"),
+            '\t' => out.push_str("\\t"),
+            c if (c as u32) < 0x20 => {
+                let _ = write!(out, "\\u{:04x}", c as u32);
+            }
+            c => out.push(c),
+        }
+    }
+    out.push('"');
+    out
+}
+
+/// Where the scheduler takes its choices from.
+#[derive(Clone, Debug)]
+pub enum Source {
+    /// Pseudo-random: keep running the current thread with probability
+    /// `1 - switch_permille/1000`, else pick uniformly among enabled threads.
+    Random { seed: u64, switch_permille: u32 },
+
+    /// Choice tape for depth-first enumeration. At each point with more than
+    /// one enabled thread the next tape entry selects the index into the
+    /// enabled list (current thread first, then ascending tid); beyond the
+    /// tape index 0 is taken.
+    Tape { choices: Vec<u32> },
+
+    /// Exact list of thread ids, one per scheduling step.
+    Replay { tids: Vec<u32> },
+}
+
+/// One recorded decision of the scheduler (only points with > 1 option).
+#[derive(Clone, Copy, Debug)]
+pub struct Decision {
+    pub options: u32,
+    pub chosen: u32,
+    /// Whether the previously running thread was among the options (so that
+    /// `chosen != 0` is a preemption).
+    pub current_enabled: bool,
+}
+
+#[derive(Clone, Debug, PartialEq, Eq)]
+pub enum Outcome {
+    /// Every managed thread finished.
+    Completed,
+    /// Thread 0 finished, others are still blocked (e.g. leaked workers).
+    MainDoneOthersBlocked,
+    Deadlock,
+    StepBound,
+    ReplayDiverged,
+    Aborted,
+    /// Wall-clock guard of the driver fired (tool error, not a verdict).
+    WallTimeout,
+}
+
+impl Outcome {
+    pub fn name(&self) -> &'static str {
+        match self {
+            Self::Completed => "completed",
+            Self::MainDoneOthersBlocked => "main_done_others_blocked",
+            Self::Deadlock => "deadlock",
+            Self::StepBound => "step_bound",
+            Self::ReplayDiverged => "replay_diverged",
+            Self::Aborted => "aborted",
+            Self::WallTimeout => "wall_timeout",
+        }
+    }
+}
+
+#[derive(Clone, Copy, Debug, PartialEq, Eq)]
+pub(crate) enum Op {
+    /// Always enabled.
+    Step,
+    Lock(usize),
+    SendOffer(usize),
+    SendDone(usize),
+    Recv(usize),
+    Park,
+    BarrierLeave(usize, u64),
+    Join(usize),
+}
+
+#[derive(Clone, Copy, Debug, PartialEq, Eq)]
+enum Status {
+    Running,
+    Pending(Op),
+    Finished,
+}
+
+struct ThreadSt {
+    status: Status,
+    token: bool,
+}
+
+#[derive(Clone, Copy, Debug, PartialEq, Eq)]
+pub(crate) enum ChanSt {
+    Empty,
+    Offered,
+    Taken,
+}
+
+pub(crate) struct ChanModel {
+    pub st: ChanSt,
+    pub senders: usize,
+    pub receiver_alive: bool,
+}
+
+pub(crate) struct BarrierModel {
+    pub n: usize,
+    pub arrived: usize,
+    pub gen: u64,
+}
+
+pub struct ClockModel {
+    pub now: u64,
+    pub freq: u64,
+    pub read_step: u64,
+    pub precision_override: Option<u128>,
+    pub overheads: [u128; 4],
+}
+
+pub(crate) struct State {
+    current: Option<usize>,
+    threads: Vec<ThreadSt>,
+    log: Vec<String>,
+    seq: u64,
+    steps: u64,
+    step_bound: u64,
+    outcome: Option<Outcome>,
+    source: Source,
+    tape_pos: usize,
+    replay_pos: usize,
+    decisions: Vec<Decision>,
+    schedule: Vec<u32>,
+    rng: u64,
+    pub spurious_left: u32,
+
+    next_obj: usize,
+    pub live: HashSet<usize>,
+    pub mutex_held: HashMap<usize, bool>,
+    pub chans: HashMap<usize, ChanModel>,
+    pub barriers: HashMap<usize, BarrierModel>,
+    pub clock: Option<ClockModel>,
+}
+
+impl State {
+    pub fn new_obj(&mut self) -> usize {
+        self.next_obj += 1;
+        // High magic half so that garbage read from a dead stack slot is
+        // practically never mistaken for a live object id.
+        let id = 0x5eed_0000_0000 + self.next_obj;
+        self.live.insert(id);
+        id
+    }
+
+    pub fn short(id: usize) -> u128 {
+        (id & 0xffff_ffff) as u128
+    }
+
+    fn enabled(&self, tid: usize) -> bool {
+        let Status::Pending(op) = self.threads[tid].status else {
+            return false;
+        };
+        match op {
+            Op::Step => true,
+            Op::Lock(o) => !self.mutex_held.get(&o).copied().unwrap_or(false),
+            Op::SendOffer(c) => self
+                .chans
+                .get(&c)
+                .map(|c| c.st == ChanSt::Empty || !c.receiver_alive)
+                .unwrap_or(true),
+            Op::SendDone(c) => self
+                .chans
+                .get(&c)
+                .map(|c| c.st == ChanSt::Taken || !c.receiver_alive)
+                .unwrap_or(true),
+            Op::Recv(c) => self
+                .chans
+                .get(&c)
+                .map(|c| c.st == ChanSt::Offered || c.senders == 0)
+                .unwrap_or(true),
+            Op::Park => self.threads[tid].token || self.spurious_left > 0,
+            Op::BarrierLeave(o, gen) => {
+                self.barriers.get(&o).map(|b| b.gen > gen).unwrap_or(true)
+            }
+            Op::Join(t) => self
+                .threads
+                .get(t)
+                .map(|t| t.status == Status::Finished)
+                .unwrap_or(true),
+        }
+    }
+
+    fn next_rand(&mut self) -> u64 {
+        // xorshift64*
+        let mut x = self.rng;
+        x ^= x >> 12;
+        x ^= x << 25;
+        x ^= x >> 27;
+        self.rng = x;
+        x.wrapping_mul(0x2545_F491_4F6C_DD1D)
+    }
+
+    /// Picks the next thread to run. `prev` is the thread that is giving up
+    /// the baton (it may itself be a candidate).
+    fn choose(&mut self, prev: usize) -> Result<usize, Outcome> {
+        if self.steps >= self.step_bound {
+            return Err(Outcome::StepBound);
+        }
+        self.steps += 1;
+
+        let mut options: Vec<usize> = Vec::new();
+        let prev_enabled = self.enabled(prev);
+        if prev_enabled {
+            options.push(prev);
+        }
+        for tid in 0..self.threads.len() {
+            if tid != prev && self.enabled(tid) {
+                options.push(tid);
+            }
+        }
+
+        if options.is_empty() {
+            let all_finished =
+                self.threads.iter().all(|t| t.status == Status::Finished);
+            if all_finished {
+                return Err(Outcome::Completed);
+            }
+            if self.threads[0].status == Status::Finished {
+                return Err(Outcome::MainDoneOthersBlocked);
+            }
+            return Err(Outcome::Deadlock);
+        }
+
+        let chosen_idx = match &self.source {
+            Source::Replay { tids } => {
+                let Some(&want) = tids.get(self.replay_pos) else {
+                    // Past the end of the script: fall back to default.
+                    self.replay_pos += 1;
+                    self.schedule.push(options[0] as u32);
+                    return Ok(options[0]);
+                };
+                self.replay_pos += 1;
+                match options.iter().position(|&t| t == want as usize) {
+                    Some(i) => i,
+                    None => return Err(Outcome::ReplayDiverged),
+                }
+            }
+            _ if options.len() == 1 => 0,
+            Source::Tape { choices } => {
+                let idx = choices
+                    .get(self.tape_pos)
+                    .copied()
+                    .unwrap_or(0)
+                    .min(options.len() as u32 - 1);
+                self.tape_pos += 1;
+                self.decisions.push(Decision {
+                    options: options.len() as u32,
+                    chosen: idx,
+                    current_enabled: prev_enabled,
+                });
+                idx as usize
+            }
+            Source::Random { switch_permille, .. } => {
+                let switch_permille = *switch_permille as u64;
+                let r = self.next_rand();
+                if prev_enabled && (r % 1000) >= switch_permille {
+                    0
+                } else {
+                    let r = self.next_rand();
+                    (r % options.len() as u64) as usize
+                }
+            }
+        };
+
+        let chosen = options[chosen_idx];
+        self.schedule.push(chosen as u32);
+        Ok(chosen)
+    }
+
+    pub fn log(&mut self, tid: usize, ev: &Ev) {
+        self.seq += 1;
+        let line = format!(
+            "{{\"seq\":{},\"tid\":{},{}}}",
+            self.seq,
+            tid,
+            ev.body()
+        );
+        self.log.push(line);
+    }
+
+    pub fn token_mut(&mut self, tid: usize) -> Option<&mut bool> {
+        self.threads.get_mut(tid).map(|t| &mut t.token)
+    }
+}
+
+pub struct Sched {
+    m: Mutex<State>,
+    cv: Condvar,
+}
+
+#[derive(Clone)]
+pub(crate) struct Ctx {
+    pub sched: Arc<Sched>,
+    pub tid: usize,
+}
+
+thread_local! {
+    static CTX: RefCell<Option<Ctx>> = const { RefCell::new(None) };
+}
+
+pub(crate) fn ctx() -> Option<Ctx> {
+    CTX.try_with(|c| c.borrow().clone()).ok().flatten()
+}
+
+/// Whether the current thread is managed by a scheduler.
+pub fn is_managed() -> bool {
+    ctx().is_some()
+}
+
+/// Managed thread id of the current thread (0 = scenario main).
+pub fn current_tid() -> Option<usize> {
+    ctx().map(|c| c.tid)
+}
+
+/// Result of running a scenario.
+pub struct RunResult {
+    pub outcome: Outcome,
+    pub log: Vec<String>,
+    pub decisions: Vec<Decision>,
+    pub schedule: Vec<u32>,
+    pub steps: u64,
+    pub threads: usize,
+}
+
+pub struct Config {
+    pub source: Source,
+    pub step_bound: u64,
+    pub spurious: u32,
+    pub clock: Option<ClockModel>,
+    pub wall_timeout: Duration,
+}
+
+impl Default for Config {
+    fn default() -> Self {
+        Self {
+            source: Source::Tape { choices: Vec::new() },
+            step_bound: 200_000,
+            spurious: 0,
+            clock: None,
+            wall_timeout: Duration::from_secs(60),
+        }
+    }
+}
+
+/// Runs `main` as managed thread 0 under a fresh scheduler and returns once
+/// the scenario ended (all threads finished, deadlock, step bound, ...).
+pub fn run<F>(config: Config, main: F) -> RunResult
+where
+    F: FnOnce() + Send + 'static,
+{
+    let seed = match &config.source {
+        Source::Random { seed, .. } => *seed | 1,
+        _ => 1,
+    };
+
+    let sched = Arc::new(Sched {
+        m: Mutex::new(State {
+            current: Some(0),
+            threads: vec![ThreadSt {
+                status: Status::Pending(Op::Step),
+                token: false,
+            }],
+            log: Vec::new(),
+            seq: 0,
+            steps: 0,
+            step_bound: config.step_bound,
+            outcome: None,
+            source: config.source,
+            tape_pos: 0,
+            replay_pos: 0,
+            decisions: Vec::new(),
+            schedule: Vec::new(),
+            rng: seed.wrapping_mul(0x9E37_79B9_7F4A_7C15) | 1,
+            spurious_left: config.spurious,
+            next_obj: 0,
+            live: HashSet::new(),
+            mutex_held: HashMap::new(),
+            chans: HashMap::new(),
+            barriers: HashMap::new(),
+            clock: config.clock,
+        }),
+        cv: Condvar::new(),
+    });
+
+    {
+        let sched = sched.clone();
+        ::std::thread::Builder::new()
+            .name("verif-main".into())
+            .spawn(move || managed_thread_body(sched, 0, main))
+            .expect("spawn scenario main");
+    }
+
+    // Wait for the end of the scenario.
+    let mut st = sched.m.lock().unwrap_or_else(|e| e.into_inner());
+    let deadline = ::std::time::Instant::now() + config.wall_timeout;
+    while st.outcome.is_none() {
+        let now = ::std::time::Instant::now();
+        if now >= deadline {
+            st.outcome = Some(Outcome::WallTimeout);
+            break;
+        }
+        let (guard, _) = sched
+            .cv
+            .wait_timeout(st, deadline - now)
+            .unwrap_or_else(|e| e.into_inner());
+        st = guard;
+    }
+
+    RunResult {
+        outcome: st.outcome.clone().unwrap(),
+        log: ::std::mem::take(&mut st.log),
+        decisions: ::std::mem::take(&mut st.decisions),
+        schedule: ::std::mem::take(&mut st.schedule),
+        steps: st.steps,
+        threads: st.threads.len(),
+    }
+}
+
+pub(crate) fn managed_thread_body<F: FnOnce()>(
+    sched: Arc<Sched>,
+    tid: usize,
+    body: F,
+) {
+    CTX.with(|c| *c.borrow_mut() = Some(Ctx { sched: sched.clone(), tid }));
+
+    // Wait for the baton for the first time; the thread is already
+    // `Pending(Step)` (set by its spawner).
+    sched.acquire(tid, |st| {
+        st.log(tid, &Ev::new("thread_start"));
+    });
+
+    let result =
+        ::std::panic::catch_unwind(::std::panic::AssertUnwindSafe(body));
+
+    let panic_msg = result.err().map(|p| panic_message(&*p));
+    sched.finish(tid, panic_msg);
+
+    CTX.with(|c| *c.borrow_mut() = None);
+}
+
+pub fn panic_message(p: &(dyn ::std::any::Any + Send)) -> String {
+    if let Some(s) = p.downcast_ref::<&str>() {
+        (*s).to_owned()
+    } else if let Some(s) = p.downcast_ref::<String>() {
+        s.clone()
+    } else {
+        "<non-string panic payload>".to_owned()
+    }
+}
+
+impl Sched {
+    /// Blocks forever; used by threads of an abandoned scenario.
+    fn abandon(&self, mut st: ::std::sync::MutexGuard<'_, State>) -> ! {
+        loop {
+            st = self.cv.wait(st).unwrap_or_else(|e| e.into_inner());
+        }
+    }
+
+    fn end(&self, st: &mut State, outcome: Outcome) {
+        if st.outcome.is_none() {
+            st.seq += 1;
+            let line = format!(
+                "{{\"seq\":{},\"tid\":-1,\"ev\":\"sched_end\",\"outcome\":\"{}\"}}",
+                st.seq,
+                outcome.name()
+            );
+            st.log.push(line);
+            st.outcome = Some(outcome);
+        }
+        st.current = None;
+        self.cv.notify_all();
+    }
+
+    /// Waits until `tid` holds the baton, then applies `effect`.
+    fn acquire<R>(
+        &self,
+        tid: usize,
+        effect: impl FnOnce(&mut State) -> R,
+    ) -> R {
+        let mut st = self.m.lock().unwrap_or_else(|e| e.into_inner());
+        loop {
+            if st.outcome.is_some() {
+                self.abandon(st);
+            }
+            if st.current == Some(tid) {
+                break;
+            }
+            st = self.cv.wait(st).unwrap_or_else(|e| e.into_inner());
+        }
+        let r = effect(&mut st);
+        st.threads[tid].status = Status::Running;
+        r
+    }
+
+    /// A scheduling point of the running thread `tid`.
+    pub(crate) fn point<R>(
+        &self,
+        tid: usize,
+        op: Op,
+        effect: impl FnOnce(&mut State) -> R,
+    ) -> R {
+        {
+            let mut st = self.m.lock().unwrap_or_else(|e| e.into_inner());
+            if st.outcome.is_some() {
+                self.abandon(st);
+            }
+            debug_assert_eq!(st.current, Some(tid));
+            st.threads[tid].status = Status::Pending(op);
+            match st.choose(tid) {
+                Ok(next) => {
+                    st.current = Some(next);
+                    if next != tid {
+                        self.cv.notify_all();
+                    }
+                }
+                Err(outcome) => {
+                    self.end(&mut st, outcome);
+                    self.abandon(st);
+                }
+            }
+        }
+        self.acquire(tid, effect)
+    }
+
+    /// Runs `f` on the model state without a scheduling point (the caller
+    /// holds the baton, so this is atomic with respect to other threads).
+    pub(crate) fn with_state<R>(&self, f: impl FnOnce(&mut State) -> R) -> R {
+        let mut st = self.m.lock().unwrap_or_else(|e| e.into_inner());
+        f(&mut st)
+    }
+
+    fn finish(&self, tid: usize, panic_msg: Option<String>) {
+        self.point(tid, Op::Step, |st| {
+            let ev = match &panic_msg {
+                Some(msg) => Ev::new("thread_exit").s("panic", msg),
+                None => Ev::new("thread_exit"),
+            };
+            st.log(tid, &ev);
+        });
+
+        let mut st = self.m.lock().unwrap_or_else(|e| e.into_inner());
+        st.threads[tid].status = Status::Finished;
+        match st.choose(tid) {
+            Ok(next) => {
+                st.current = Some(next);
+                self.cv.notify_all();
+            }
+            Err(outcome) => self.end(&mut st, outcome),
+        }
+    }
+
+    /// Ends the scenario with outcome `Aborted`; never returns.
+    pub(crate) fn abort_scenario(&self) -> ! {
+        let mut st = self.m.lock().unwrap_or_else(|e| e.into_inner());
+        self.end(&mut st, Outcome::Aborted);
+        self.abandon(st)
+    }
+
+    /// Registers a new managed thread (called from the spawner's effect).
+    pub(crate) fn register_thread(st: &mut State) -> usize {
+        st.threads
+            .push(ThreadSt { status: Status::Pending(Op::Step), token: false });
+        st.threads.len() - 1
+    }
+}
+
+/// Logs a user-level event; a scheduling point. No-op on unmanaged threads.
+pub fn event(ev: Ev) {
+    if let Some(c) = ctx() {
+        c.sched.point(c.tid, Op::Step, |st| st.log(c.tid, &ev));
+    }
+}
+
+/// Logs an event and applies `f` to the clock in the same atomic step.
+pub fn event_advancing(ev: Ev, ticks: u64) {
+    if let Some(c) = ctx() {
+        c.sched.point(c.tid, Op::Step, |st| {
+            if let Some(clock) = &mut st.clock {
+                clock.now = clock.now.saturating_add(ticks);
+            }
+            st.log(c.tid, &ev);
+        });
+    }
+}
